@@ -46,6 +46,11 @@ class C12Engine(SimEngine):
         if twin.error or twin.inconclusive:
             out["stats"]["twin_inconclusive"] = 1
             return out
+        if any(l.startswith("abandon:") for l in list(res.labels) + list(twin.labels)):
+            # the program cancels the caller of a blocked flush(): whether a flush is blocked at that moment depends, by
+            # documentation, on the faults (flush raises a failed task's exception at once instead of waiting): not comparable
+            out["stats"]["twin_not_comparable_abandon"] = 1
+            return out
         if any(v for v in twin.violations):
             # the twin itself misbehaves: not a differential finding; its own oracles speak in their own checks
             out["stats"]["twin_had_violations"] = 1
